@@ -418,28 +418,23 @@ Proof.
   - inversion E; subst. lia.
 Qed.
 
-Lemma h_swap_spec h f s h' w u :
-  wf_slice h f s -> h_swap s h = (u, h', w) ->
-  hext h h' w /\ rd h' s = wnorm (rd h s)
-  /\ (forall l i, In (l, i) w -> exists n c, s = SArr l n c /\ i < n).
+Lemma h_swap_spec grow h f s s' h' w :
+  wf_slice h f s -> h_swap grow f s h = (s', h', w) ->
+  w = [] /\ hext h h' [] /\ wf_slice h' f s' /\ rdo h' s' = option_map wnorm (rdo h s).
 Proof.
   intros W E. destruct s as [|l n c]; cbn [h_swap] in E.
-  { apply ret_inv in E. destruct E as (_ & -> & ->). split; [apply hext_refl|]. split; auto. intros l i []. }
+  { apply ret_inv in E. destruct E as (-> & -> & ->). split; auto. split; [apply hext_refl | split; auto]. }
   apply bind_inv in E. destruct E as (xs & h1 & w1 & w2 & E1 & E2 & ->).
   apply rdc_inv in E1. destruct E1 as (-> & -> & ->). cbn [app].
-  unfold wnorm. set (xs := rd h (SArr l n c)) in *.
-  assert (Lx : length xs = n) by apply (rd_length h f (SArr l n c) W).
-  destruct (first_non_or xs 0) as [[|j]|] eqn:Ef;
-    try (apply ret_inv in E2; destruct E2 as (_ & -> & ->); split; [apply hext_refl|]; split; auto; intros l0 i []).
-  apply first_non_or_range in Ef. rewrite Lx in Ef. cbn in Ef.
-  apply bind_inv in E2. destruct E2 as (u1 & h2 & w3 & w4 & E2 & E3 & ->).
-  unfold wr in E2, E3. inversion E2; subst u1 h2 w3; clear E2. inversion E3; subst h' w4; clear E3.
-  destruct W as (a & Ea & La & Hn).
-  assert (E1 := hwrite_nth_error_eq _ _ 0 (nth (S j) xs 0%Z) _ _ Ea).
-  assert (E2 := hwrite_nth_error_eq _ _ (S j) (nth 0 xs 0%Z) _ _ E1).
-  split; [|split].
-  - eapply hext_trans; apply hext_write.
-  - cbn [rd]. rewrite (cells_of_nth_error _ _ _ _ E2). rewrite !firstn_upd_nth.
-    unfold xs. cbn [rd]. rewrite (cells_of_nth_error _ _ _ _ Ea). reflexivity.
-  - intros l0 i [Hin | [Hin | []]]; inversion Hin; subst l0 i; exists n, c; split; auto; lia.
+  destruct (first_non_or (rd h (SArr l n c)) 0) as [[|j]|] eqn:Ef.
+  - apply ret_inv in E2. destruct E2 as (-> & -> & ->).
+    split; auto. split; [apply hext_refl|]. split; auto.
+    unfold rdo. cbn [option_map]. unfold wnorm. rewrite Ef. reflexivity.
+  - assert (R := h_user_spec _ _ _ _ _ _ _ SNil E2).
+    rewrite h_user_eq in E2. inversion E2; subst; clear E2.
+    split; auto. split; [apply hext_alloc|]. split; [apply (sr_wf _ _ _ _ _ _ _ R)|].
+    rewrite (sr_rd _ _ _ _ _ _ _ R). reflexivity.
+  - apply ret_inv in E2. destruct E2 as (-> & -> & ->).
+    split; auto. split; [apply hext_refl|]. split; auto.
+    unfold rdo. cbn [option_map]. unfold wnorm. rewrite Ef. reflexivity.
 Qed.
